@@ -1,13 +1,13 @@
 (** C07 dispatcher: the model itself is Model/Time.v (shared with the properties that use times of
     day) and Model/TimeDelta.v; this file only maps case lines to model calls.  No proofs here.
 
-    TODO(lead): ops [ndt.*] — NaiveDateTime::checked_add_signed / checked_sub_signed /
-    signed_duration_since with leap-second operands and the carry applied to the date — are added
-    here once Model/DateTime.v exists (the time-of-day half they need is [overflowing_add_signed] /
-    [overflowing_sub_signed] / [signed_duration_since] of Model/Time.v). *)
+    Ops [ndt.*]: NaiveDateTime::checked_add_signed / checked_sub_signed (and the operators) with
+    leap-second operands, the carry applied to the date (Model/DateTime.v on top of Model/Time.v
+    and Model/Date.v). *)
 From Coq Require Import ZArith List Bool String.
 From V Require Import Base.Int Base.IO Model.TimeDelta.
 From V Require Export Model.Time.
+From V Require Model.DateTime.
 Import ListNotations.
 Open Scope Z_scope.
 
@@ -43,6 +43,8 @@ Definition run (op : bytes) (args : list val) : val :=
                     | Some t, Some s, Some n => if n <? 1000000000 then f t s n else VBad
                     | _, _, _ => VBad end
      | _ => VBad end in
+  let n_d (f : DateTime.ndt -> td -> val) := match args with
+     | [a; b] => match DateTime.dec_ndt a, dec_td b with Some x, Some d => f x d | _, _ => VBad end | _ => VBad end in
   if op_is op "t.hms" then u32_3 (fun h m s => val_of_R vo_time (from_hms_opt h m s))
   else if op_is op "t.hms_milli" then u32_4 (fun h m s x => val_of_R vo_time (from_hms_milli_opt h m s x))
   else if op_is op "t.hms_micro" then u32_4 (fun h m s x => val_of_R vo_time (from_hms_micro_opt h m s x))
@@ -73,4 +75,12 @@ Definition run (op : bytes) (args : list val) : val :=
   else if op_is op "t.suboff" then t_o (fun t k => val_of_R enc_time (op_sub_offset t k))
   else if op_is op "t.addoffd" then t_o (fun t k => val_of_R enc_pair (overflowing_add_offset t k))
   else if op_is op "t.suboffd" then t_o (fun t k => val_of_R enc_pair (overflowing_sub_offset t k))
+  else if op_is op "ndt.add" then
+    n_d (fun a d => val_of_R (val_of_option DateTime.enc_ndt) (DateTime.ndt_checked_add_signed a d))
+  else if op_is op "ndt.sub" then
+    n_d (fun a d => val_of_R (val_of_option DateTime.enc_ndt) (DateTime.ndt_checked_sub_signed a d))
+  else if op_is op "ndt.opadd" then
+    n_d (fun a d => val_of_R DateTime.enc_ndt (unwrap_r (DateTime.ndt_checked_add_signed a d)))
+  else if op_is op "ndt.opsub" then
+    n_d (fun a d => val_of_R DateTime.enc_ndt (unwrap_r (DateTime.ndt_checked_sub_signed a d)))
   else VErr B"NOOP".
